@@ -7,6 +7,7 @@ import (
 	"os"
 	"strconv"
 	"strings"
+	"sync"
 
 	"github.com/mmcloughlin/addchain"
 	"github.com/mmcloughlin/addchain/acc"
@@ -29,7 +30,7 @@ func init() {
 		genC04(g, c04Case, g.pick(5, 6), 16)
 		genC04b(g)
 	}
-	props["C16"] = func(g *Gen) { genC04(g, c16Case, 6, 8) }
+	props["C16"] = func(g *Gen) { c16Concurrent(g); genC04(g, c16Case, 6, 8) }
 	replays["C04"] = func(g *Gen, f []string) {
 		if len(f) >= 2 && f[0] == "c04b" {
 			c04bCase(g, f[1])
@@ -704,6 +705,64 @@ func genC04(g *Gen, emit func(g *Gen, p addchain.Program), maxLen, sample7 int) 
 		p := c04Random(g, 20+g.R.Intn(181))
 		emit(g, p)
 		g.Count("random-long")
+	}
+}
+
+// c16Concurrent: acc.Build is a pure function of the program — building different programs from several
+// goroutines at once must give each the script it gets alone (the naming passes are package-level values
+// shared by every call).
+func c16Concurrent(g *Gen) {
+	const n = 48
+	progs := make([]addchain.Program, n)
+	alone := make([]string, n)
+	build := func(p addchain.Program) string {
+		out := "panic"
+		safe(func() {
+			prog, err := acc.Decompile(p)
+			if err != nil {
+				out = "err"
+				return
+			}
+			ch, err := acc.Build(prog)
+			if err != nil {
+				out = "err"
+				return
+			}
+			out = scriptDump(ch)
+		})
+		return out
+	}
+	for i := range progs {
+		if i%2 == 0 {
+			progs[i] = c04Random(g, 40+g.R.Intn(200))
+		} else {
+			progs[i] = c04Runs(g, 10+g.R.Intn(20))
+		}
+		alone[i] = build(progs[i])
+	}
+	for round := 0; round < 4; round++ {
+		got := make([]string, n)
+		var wg sync.WaitGroup
+		start := make(chan struct{})
+		for w := 0; w < 8; w++ {
+			wg.Add(1)
+			go func(w int) {
+				defer wg.Done()
+				<-start
+				for i := w; i < n; i += 8 {
+					got[i] = build(progs[i])
+				}
+			}(w)
+		}
+		close(start)
+		wg.Wait()
+		g.Count("concurrent-builds")
+		for i := range got {
+			if got[i] != alone[i] {
+				g.Notes = append(g.Notes, fmt.Sprintf("VIOLATION: acc.Build of program %s gives %.200s when other programs are built at the same time, and %.200s alone", encOps(progs[i]), got[i], alone[i]))
+				return
+			}
+		}
 	}
 }
 
